@@ -501,6 +501,12 @@ func (c *Ctx) partIndex(v ssa.Value) int {
 			return int(k)
 		}
 	}
+	// strings.Cut(s, sep): result #0 is the text before the separator, #1 the text after it
+	if px, ok := call.Call.Args[0].(*ssa.Extract); ok && px.Index <= 1 {
+		if cut, ok := px.Tuple.(*ssa.Call); ok && calleeName(&cut.Call) == "strings.Cut" {
+			return px.Index
+		}
+	}
 	return -1
 }
 
@@ -751,11 +757,12 @@ func ruleCircleWire(c *Ctx) {
 		name := fname(fn)
 		idxCall := firstCall(fn, staticOf("op.CircleOfFifth.index"))
 		ats := callsTo(fn, "op.Circle.At")
+		tr := c.plainTracer()
 		problem := ""
 		if idxCall == nil || idxCall.Common().Args[1] != ssa.Value(fn.Params[1]) {
 			problem = "the index is not looked up for the given key"
-		} else if len(ats) != 2 {
-			problem = fmt.Sprintf("%d ring accesses, want one per ring", len(ats))
+		} else if len(ats) == 0 {
+			problem = "no ring access"
 		} else {
 			var idx ssa.Value
 			for _, r := range *idxCall.(*ssa.Call).Referrers() {
@@ -763,29 +770,39 @@ func ruleCircleWire(c *Ctx) {
 					idx = ex
 				}
 			}
+			// which ring is read under which value of isMinor: the choice may be an if/else around two calls or a
+			// helper that selects the ring (guarded alternatives of the receiver)
+			pairs := map[string]bool{}
 			for _, at := range ats {
 				add, ok := at.Common().Args[1].(*ssa.BinOp)
 				if !ok || add.Op != token.ADD || !((add.X == idx && add.Y == ssa.Value(fn.Params[3])) || (add.Y == idx && add.X == ssa.Value(fn.Params[3]))) {
 					problem = "the slot is not index + delta"
 				}
-				ring, _, ok := loadedField(at.Common().Args[0])
-				if !ok {
-					problem = "the ring is not a field of the circle"
-					continue
-				}
-				side, ok := c.branchSide(at.Block(), func(v ssa.Value) bool { return v == ssa.Value(fn.Params[2]) })
-				if !ok {
-					// the fall-through return: not in the true branch
-					side = false
-					for _, pc := range pathConds(at.Block()) {
-						if pc.cond == ssa.Value(fn.Params[2]) {
-							side = pc.side
+				site := guardsOf(at.Block(), lval{nil, fn, nil})
+				for _, a := range tr.alts(lval{at.Common().Args[0], fn, nil}, 0) {
+					ring, _, ok := loadedField(a.leaf.v)
+					if !ok {
+						problem = "the ring is not a field of the circle"
+						continue
+					}
+					side, known := false, false
+					for _, g := range append(append([]gcond{}, site...), a.conds...) {
+						if gl := tr.trace(g.cond); len(gl.chain) == 0 && gl.v == ssa.Value(fn.Params[2]) {
+							side, known = g.want, true
 						}
 					}
+					if !known {
+						problem = fmt.Sprintf("ring %s is used whatever isMinor is", ring)
+						continue
+					}
+					pairs[fmt.Sprintf("%s/%v", ring, side)] = true
+					if (ring == "Minors") != side {
+						problem = fmt.Sprintf("ring %s is used when isMinor=%v", ring, side)
+					}
 				}
-				if (ring == "Minors") != side {
-					problem = fmt.Sprintf("ring %s is used when isMinor=%v", ring, side)
-				}
+			}
+			if problem == "" && !(pairs["Minors/true"] && pairs["Majors/false"] && len(pairs) == 2) {
+				problem = fmt.Sprintf("ring selection is %v, want Minors when isMinor and Majors otherwise", sortedKeys(pairs))
 			}
 			if !c.errorReturned(idxCall.(*ssa.Call)) {
 				problem = "a key that is in no slot is not an error"
@@ -800,25 +817,30 @@ func ruleCircleWire(c *Ctx) {
 		c.site(1)
 		name := fname(fn)
 		problem := ""
+		tr := c.plainTracer()
 		calls := callsTo(fn, "op.Circle.Index")
-		if len(calls) != 2 {
-			problem = fmt.Sprintf("%d ring searches, want 2", len(calls))
+		if len(calls) == 0 {
+			problem = "no ring search"
 		}
+		pairs := map[string]bool{}
 		for _, ci := range calls {
-			ring, _, ok := loadedField(ci.Common().Args[0])
-			if !ok {
-				problem = "ring is not a field"
-				continue
-			}
-			side := false
-			found := false
-			for _, pc := range pathConds(ci.Block()) {
-				if n, _, ok := loadedField(pc.cond); ok && n == "Minor" {
-					side, found = pc.side, true
+			site := guardsOf(ci.Block(), lval{nil, fn, nil})
+			for _, a := range tr.alts(lval{ci.Common().Args[0], fn, nil}, 0) {
+				ring, _, ok := loadedField(a.leaf.v)
+				if !ok {
+					problem = "ring is not a field"
+					continue
 				}
-			}
-			if !found || (ring == "Minors") != side {
-				problem = fmt.Sprintf("ring %s is searched when key.Minor=%v", ring, side)
+				side, found := false, false
+				for _, g := range append(append([]gcond{}, site...), a.conds...) {
+					if n, _, ok := loadedField(tr.trace(g.cond).v); ok && n == "Minor" {
+						side, found = g.want, true
+					}
+				}
+				pairs[fmt.Sprintf("%s/%v", ring, side)] = true
+				if !found || (ring == "Minors") != side {
+					problem = fmt.Sprintf("ring %s is searched when key.Minor=%v", ring, side)
+				}
 			}
 			if ci.Common().Args[1] != ssa.Value(fn.Params[1]) {
 				ac := &affCtx{c: c, fn: fn, alias: map[ssa.Value]string{}}
@@ -826,6 +848,9 @@ func ruleCircleWire(c *Ctx) {
 					problem = "the ring is not searched for the given key"
 				}
 			}
+		}
+		if problem == "" && !(pairs["Minors/true"] && pairs["Majors/false"] && len(pairs) == 2) {
+			problem = fmt.Sprintf("ring selection is %v, want Minors for minor keys and Majors otherwise", sortedKeys(pairs))
 		}
 		c.check(problem == "", name, c.pos(fn.Pos()), name, "searches the ring of the key's own mode", name+": "+problem)
 	} else {
